@@ -85,6 +85,19 @@ def obligations(tier, seed):
 ''' % (fits(A, R1), fits(B, R2), mt, wmod.name, mt, mt, A, mt, B)
         slow_mod = (R1 != R2 or R1 == 'i16')   # symbolic-divisor remainders across widths: two different dividers that no back end equated within 75 minutes;
         # they are covered by the bounded family below (mod-mixed-family) in both tiers and are not generated unbounded
+        if slow_mod and (2147 * N <= G.tmax(R1) or N == 1) and (2147 * D <= G.tmax(R2) or D == 1) and not (G.REPS[R1]['signed'] != G.REPS[R2]['signed']):
+            # STRUCTURAL obligation, unbounded: the remainder operator of the promoted common type is uninterpreted on both sides (-DLL2C_UF_DIV=1), so the claim is that the
+            # library applies it once to the exactly scaled operands, for every meaning of %, hence the machine's; no two dividers have to be equated
+            rem = 'LL2C_%sREM%d' % ('S' if G.REPS[MT]['signed'] else 'U', G.REPS[MT]['bits'])
+            body_s = '''
+  ASSUME(%s && %s && b != 0);
+  %s m = %s(a, b);
+  CHECK(m == (%s)%s((%s)%s, (%s)%s), "remainder-is-the-raw-remainder-operator-applied-to-the-exactly-scaled-operands");
+''' % (fits(A, R1), fits(B, R2), mt, wmod.name, mt, rem, mt, A, mt, B)
+            obs.append(Ob(id='C08.mod.%s' % tag, prop='C08', group=grp, prelude=pre, wrappers=[wmod], inputs=[(c1, 'a'), (c2, 'b')], body=body_s, budget=120, defs=('LL2C_UF_DIV=1',),
+                          contract='forall a, b != 0 with a*%d in range(%s), b*%d in range(%s): (U1(a) %% U2(b)).in(common unit) is ONE application of the raw %% of %s to (a*%d, b*%d) '
+                                   '(structural: the operator is uninterpreted on both sides; division by zero and INT_MIN %% -1 stay bit-precise assertions)'
+                                   % (N, c1, D, c2, mt, N, D), functions_under_contract=('au::operator%(Quantity<U1,R1>, Quantity<U2,R2>)',)))
         if (2147 * N <= G.tmax(R1) or N == 1) and (2147 * D <= G.tmax(R2) or D == 1) and not (G.REPS[R1]['signed'] != G.REPS[R2]['signed']) \
                 and not slow_mod:
             obs.append(Ob(id='C08.mod.%s' % tag, prop='C08', group=grp, prelude=pre, wrappers=[wmod], inputs=[(c1, 'a'), (c2, 'b')], body=body, budget=900 if slow_mod else 120,
